@@ -58,6 +58,23 @@ def extra_stored_files(tier, seed, prop):
         if s['nv'] > 60:
             s['nv'], s['nt'] = rng.range(4, 40), rng.range(2, 40)
         out.append({'builder': {'version': ver, 'salt': rng.below(1 << 30), 'nodes': rng.below(3), 'shapes': [s]}})
+    # several skinned shapes of different sizes in one file (a damaged reference can then designate the skin, partition or
+    # data of another shape of the same kind)
+    nmulti = 4 if tier == 'quick' else 60
+    for k in range(nmulti):
+        ver = ['SSE', 'SK', 'FO4', 'SSE'][k % 4] if tier == 'quick' else rng.choice(['OB', 'FO3', 'SK', 'SSE', 'FO4', 'FO76'])
+        shapes = []
+        for j in range(rng.range(2, 3)):
+            sh = hist.shape_spec(rng, ver, 'quick', name='m%d' % j, want_skin=True)
+            sh['nv'], sh['nt'] = rng.range(4, 12) * (j + 1), rng.range(2, 20)
+            sh['bones'] = rng.range(2, 10)          # (few bone nodes: the number of cut / patch points grows with the block count)
+            sh.setdefault('wpv', 3)
+            sh.setdefault('partitions', 1)
+            shapes.append(sh)
+        if ver == 'SSE':
+            shapes[0]['kind'] = 'dynamic'
+            shapes[0].pop('eyedata', None)
+        out.append({'builder': {'version': ver, 'salt': rng.below(1 << 30), 'nodes': rng.below(3), 'shapes': shapes}})
     small = [n for n, sz in sample_names('in') if sz < 30000]
     nedit = 3 if tier == 'quick' else 120
     for _ in range(nedit):
